@@ -10,6 +10,7 @@ from jax2onnx._compat.jax import (
     ShapedArray,
     batching,
 )
+import jax
 import jax.numpy as jnp
 import numpy as np
 
@@ -27,6 +28,25 @@ from jax2onnx.plugins.plugin_system import PrimitiveLeafPlugin, register_primiti
 
 
 _MAXIMUM_PRIM: Final = make_jnp_primitive("jax.numpy.maximum")
+
+
+def _jax_result_type(*avals: Any) -> tuple[np.dtype[Any], bool]:
+    """(dtype, weak_type) JAX itself gives an elementwise op over these operands.
+
+    Uses JAX's promotion lattice (not numpy's: float32 with int32 is float32, never
+    float64), honours weakly typed Python scalars and the current x64 mode.
+    """
+    specs = [
+        jax.ShapeDtypeStruct(
+            (), np.dtype(a.dtype), weak_type=bool(getattr(a, "weak_type", False))
+        )
+        for a in avals
+    ]
+    out = jax.eval_shape(
+        lambda *xs: jax.lax.full((), 0, jnp.result_type(*xs)), *specs
+    )
+    weak = all(bool(getattr(a, "weak_type", False)) for a in avals)
+    return np.dtype(out.dtype), weak
 
 
 @register_primitive(
@@ -61,8 +81,8 @@ class JnpMaximumPlugin(PrimitiveLeafPlugin):
     @staticmethod
     def abstract_eval(x: AbstractValue, y: AbstractValue) -> ShapedArray:
         out_shape = tuple(jnp.broadcast_shapes(x.shape, y.shape))
-        out_dtype = np.promote_types(x.dtype, y.dtype)
-        return ShapedArray(out_shape, out_dtype)
+        out_dtype, out_weak = _jax_result_type(x, y)
+        return ShapedArray(out_shape, out_dtype, weak_type=out_weak)
 
     def lower(self, ctx: LoweringContextProtocol, eqn: JaxprEqn) -> None:
         lhs_var, rhs_var = eqn.invars
